@@ -14,13 +14,13 @@ RULE = (
     "complete product field catalogue (all admissible plane-wave vectors x amplitudes x offsets x phases; droplet fields; all non-constant "
     "{0,1} fields on 6 and 2x3 cells) x spacing {1e-3, 1/32, 0.39, 1, 3, 10, 100} x scaling {-2, 0.5, 1e3} x shifts x methods; "
     "the reference spacing is 1; non-trivial = field is not constant"
-    "; anisotropic equal-count grids; every shift of every 3x4 / 4x3 binary image and of a bar family for the counting method; bright+dim droplet family x every threshold rule x scales 2^-40..1e12; grid-sequence histories; spacings 1e-9..1e6"
+    "; anisotropic equal-count grids; every shift of every 3x4 / 4x3 binary image and of a bar family for the counting method; bright+dim droplet family x every threshold rule x scales 2^-40..1e12; grid-sequence histories; spacings 1e-10..2e6 incl. consecutive analyses at 1e-10, 1e-9, 2e-9; knife-edge screen from an own FFT spectrum"
 )
 ASSUMPTIONS = [
     "periodic Cartesian grids; stretch factors restricted to the spacing menu; peak clause only for resolved single plane waves",
     "peak-based method compared within half a Fourier bin of the box (pi / L_max) as stated; other methods rtol 1e-9",
 ]
-SPACINGS = [1e-9, 1e-3, 1 / 32, 0.39, 1.0, 3.0, 10.0, 100.0, 1e6]  # fifteen decades: no absolute length tolerance may matter
+SPACINGS = [1e-10, 1e-9, 2e-9, 1e-3, 1 / 32, 0.39, 1.0, 3.0, 10.0, 100.0, 1e6, 2e6]  # sixteen decades, neighbours that differ by less than any absolute tolerance: no absolute length tolerance may matter
 SCALES = [-2.0, 0.5, 1e3]
 TWO_PI = 2 * math.pi
 
@@ -293,9 +293,9 @@ def run_case(case, ctx):
         ctx.count("non-convex-patterns")
         methods = ["structure_factor_mean"]
     # knife-edge screen for the peak-based method: the largest power must belong to one wave number only
-    from droplets import get_structure_factor
-
-    k_, S_ = get_structure_factor(ScalarField(grid_of(shape, 1.0, aspect), f), smoothing=None)
+    # (own spectrum from numpy's FFT and own wave numbers - the screen must not depend on the code under test)
+    S_ = (np.abs(np.fft.fftn(f)) ** 2).ravel()[1:]
+    k_ = np.sqrt(sum(np.meshgrid(*[(TWO_PI * np.fft.fftfreq(n, d=a)) ** 2 for n, a in zip(shape, aspect)], indexing="ij"))).ravel()[1:]
     top = {round(float(k), 9) for k, s_ in zip(k_, S_) if s_ >= S_.max() * (1 - 1e-6)}
     for method in methods:
         t = dict(tags, method=method)
